@@ -22,9 +22,11 @@ Fixpoint chk_deliveries (u : list change) (d : doc) (steps : list delivery) : bo
   match steps with
   | [] => true
   | (idx, st, hs, ms, o) :: rest =>
-    match receive d (flat_map (nth_change u) idx) with
+    let cs := flat_map (nth_change u) idx in
+    match receive d cs with
     | Ok d' => (st =? 0) && chk_state d' hs ms o && chk_deliveries u d' rest
-    | Err => (st =? 2) && chk_state d hs ms o && chk_deliveries u d rest
+    | Err => let d' := receive_err_state d cs in
+             (st =? 2) && chk_state d' hs ms o && chk_deliveries u d' rest
     | Panic => false
     end
   end.
@@ -37,16 +39,16 @@ Fixpoint diag_deliveries (u : list change) (d : doc) (steps : list delivery) (n 
   match steps with
   | [] => []
   | (idx, st, hs, ms, o) :: rest =>
-    match receive d (flat_map (nth_change u) idx) with
-    | Ok d' =>
-      if negb (st =? 0) then [n; 1]
-      else if negb (nlist_eqb (heads_of (applied d')) hs) then [n; 2]
-      else if negb (nlist_eqb (missing_deps d' []) ms) then [n; 3]
-      else if negb (match o with None => true | Some ob => obs_eqb (obs_of_doc d') ob end) then [n; 4]
-      else diag_deliveries u d' rest (n + 1)
-    | Err => if negb (st =? 2) then [n; 5] else diag_deliveries u d rest (n + 1)
-    | Panic => [n; 6]
-    end
+    let cs := flat_map (nth_change u) idx in
+    let (d', want) := match receive d cs with
+                      | Ok d' => (d', 0)
+                      | _ => (receive_err_state d cs, 2)
+                      end in
+    if negb (st =? want) then [n; 1]
+    else if negb (nlist_eqb (heads_of (applied d')) hs) then [n; 2]
+    else if negb (nlist_eqb (missing_deps d' []) ms) then [n; 3]
+    else if negb (match o with None => true | Some ob => obs_eqb (obs_of_doc d') ob end) then [n; 4]
+    else diag_deliveries u d' rest (n + 1)
   end.
 
 (* historical read: observation at heads [hs] of a document holding [u] (in order) *)
